@@ -51,6 +51,8 @@ def stream_main_column(ctx):
 def run(ctx, built):
     PS.stream_plan(ctx, built, ctx.scale(50, 500))
     stream_main_column(ctx)
+    import e2e_streams as ES
+    ES.stream_sampleD(ctx, built, ctx.scale(10, 100))
 
 
 def search(ctx, seeds):
